@@ -727,42 +727,65 @@ pub fn graph_replay<S: Sut>(gen_path: &str, out: &mut Out, hist: &mut Out, mut m
     // pass 2: replay the outgoing transitions of every state that also has a representative left
     // behind by a failed call / a clear ("a later operation behaves as if the failed one had not
     // happened", "after clear() ... any further identical operation sequence").
-    if !alts.is_empty() {
+    // The second representatives are explored further (breadth first, one representative per spec
+    // state, at most max_alt of them), so that the lock-step with a fresh object after clear() and the
+    // "as if the failed call had not happened" comparison cover whole continuations, not one call.
+    let mut expanded: std::collections::HashSet<String> = std::collections::HashSet::new();
+    for _round in 0..64 {
+        let cand: std::collections::HashSet<String> = alts.keys().filter(|k| !expanded.contains(*k)).cloned().collect();
+        if cand.is_empty() {
+            break;
+        }
         for t in read_json_lines(gen_path) {
             if t["k"] != "t" {
                 continue;
             }
             let prekey = t["pre"].to_string();
-            if let Some(v) = alts.get(&prekey) {
-                for n in v {
-                    let mut sut = n.sut.clone();
-                    let mut op = t["op"].clone();
-                    op["rep"] = json!(st.alt_executed % opts.reps.max(1));
-                    tid += 1;
-                    CALL_TID.store(tid, Ordering::SeqCst);
-                    note_call(json!({"hid": n.hid, "op": op}));
-                    let rec = sut.apply(&op, None);
-                    st.alt_executed += 1;
-                    let mut full = Map::new();
-                    full.insert("k".into(), json!("p"));
-                    full.insert("s".into(), json!(S::TAG));
-                    full.insert("tid".into(), json!(tid));
-                    full.insert("hid".into(), json!(n.hid));
-                    full.insert("alt".into(), json!(n.kind));
-                    full.insert("op".into(), op.clone());
-                    let ms = if rec["res"] == "panic" { Value::Null } else if S::COMPARE_MSTATE { sut.main.mstate() } else { t["post"].clone() };
-                    if ms != t["post"] {
-                        st.drift += 1;
-                        full.insert("drift".into(), json!(true));
-                        if st.first_drift.len() < 5 {
-                            st.first_drift.push(json!({"tid":tid,"alt":true,"op":op,"pre":t["pre"],"spec_post":t["post"],"code_post":ms}));
-                        }
-                    }
-                    merge_into(&mut full, rec);
-                    put_rec(out, &mut last_uid, &sut, Value::Object(full));
+            if !cand.contains(&prekey) {
+                continue;
+            }
+            let (mut sut, nhid, nkind) = {
+                let n = &alts[&prekey][0];
+                (n.sut.clone(), n.hid, n.kind.clone())
+            };
+            let mut op = t["op"].clone();
+            op["rep"] = json!(st.alt_executed % opts.reps.max(1));
+            tid += 1;
+            CALL_TID.store(tid, Ordering::SeqCst);
+            note_call(json!({"hid": nhid, "op": op}));
+            let rec = sut.apply(&op, None);
+            st.alt_executed += 1;
+            let mut full = Map::new();
+            full.insert("k".into(), json!("p"));
+            full.insert("s".into(), json!(S::TAG));
+            full.insert("tid".into(), json!(tid));
+            full.insert("hid".into(), json!(nhid));
+            full.insert("alt".into(), json!(nkind));
+            full.insert("op".into(), op.clone());
+            let panicked = rec["res"] == "panic";
+            let ms = if panicked { Value::Null } else if S::COMPARE_MSTATE { sut.main.mstate() } else { t["post"].clone() };
+            let spec_panics = t["res"] == "panic";
+            if (panicked != spec_panics) || (!panicked && ms != t["post"]) {
+                st.drift += 1;
+                full.insert("drift".into(), json!(true));
+                if st.first_drift.len() < 5 {
+                    st.first_drift.push(json!({"tid":tid,"alt":true,"op":op,"pre":t["pre"],"spec_post":t["post"],"code_post":ms}));
                 }
             }
+            merge_into(&mut full, rec);
+            put_rec(out, &mut last_uid, &sut, Value::Object(full));
+            if panicked {
+                continue;
+            }
+            let postkey = t["post"].to_string();
+            if !alts.contains_key(&postkey) && st.alt_states < opts.max_alt {
+                hist.put(&json!({"hid": next_hid, "parent": nhid, "op": op}));
+                alts.insert(postkey, vec![Node { sut, hid: next_hid, kind: nkind }]);
+                next_hid += 1;
+                st.alt_states += 1;
+            }
         }
+        expanded.extend(cand);
     }
     // binary operations over pairs of materialised states
     if let (Some(pair_op), Some(mout)) = (&opts.pair_op, mout) {
